@@ -167,10 +167,12 @@ theorem short_eq_long (p : Str × Str) (hp : p ∈ flowBasicHeaders) (pre post :
   · rw [ctxRemap_basic flowRowSchema _ p.1 p.2 h1, flow_id _ p.2 h2 h3]
 
 /-- **Short = long (main argument)**: `message_text` is the main-argument field selected by
-the row's `type` cell through the source's `row_type_to_main_arg` table. -/
+the row's `type` cell through the source's `row_type_to_main_arg` table — by the TRIMMED text of that
+cell (fix 7d69602: a type cell with surrounding whitespace is trimmed like every other cell; before, the
+raw text was looked up and `"send_message "` raised KeyError under the short header only). -/
 theorem message_text_eq_main_arg (p : Str × Str) (hp : p ∈ flowMainArg)
-    (pre post : List (Str × Str)) (c : Str)
-    (htype : alookup typeCol (pre ++ post) = some p.1) :
+    (pre post : List (Str × Str)) (c t : Str)
+    (htype : alookup typeCol (pre ++ post) = some t) (htrim : strip pyWs t = p.1) :
     parseRow flowRowSchema (pre ++ [(msgHdr, c)] ++ post) =
     parseRow flowRowSchema (pre ++ [(p.2, c)] ++ post) := by
   obtain ⟨h1, h2, h3, h4⟩ := remap_tables_side_conditions.2.1 p hp
@@ -178,11 +180,16 @@ theorem message_text_eq_main_arg (p : Str × Str) (hp : p ∈ flowMainArg)
   apply parseRow_of_rekey_eq
   apply rekey_header_swap
   · exact flow_ctx _ _ (alookup_swap_key pre post msgHdr p.2 typeCol c h6 h4)
-  · have ht : alookup typeCol (pre ++ [(p.2, c)] ++ post) = some p.1 := by
+  · have ht : alookup typeCol (pre ++ [(p.2, c)] ++ post) = some t := by
       rw [← htype]
       simp [alookup_append, alookup, h4]
-    rw [ctxRemap_main flowRowSchema _ msgHdr typeCol flowMainArg flow_main h5 p.1 p.2 ht h1,
+    rw [ctxRemap_main flowRowSchema _ msgHdr typeCol flowMainArg flow_main h5 t p.2 ht (by rw [htrim]; exact h1),
       flow_id _ p.2 h2 h3]
+
+/-- non-vacuity of the trimming: a padded type cell (spaces, a no-break space, a tab) still selects the
+main argument; computed by the kernel on the regenerated table -/
+example : strip pyWs " send_message\u00a0\t".toList = "send_message".toList ∧
+    ("send_message".toList, "mainarg_message_text".toList) ∈ flowMainArg := by decide +kernel
 
 /-- non-vacuity: the tables are not empty and a concrete short row parses to an edge -/
 example : ("from".toList, "edges.*.from_".toList) ∈ flowBasicHeaders ∧
